@@ -176,6 +176,12 @@ func genValuesTree(rng *rand.Rand, name string) map[string]any {
 		"items":    items,
 		"tplstr":   ts,
 		"global":   map[string]any{"gk": word(rng), "gmap": genLabels(rng)},
+		// a default list of tables, never overridden by the user or the parent chart: templates
+		// rewrite its elements in place (see construct set-list-element-in-place)
+		"containers": []any{
+			map[string]any{"name": word(rng), "port": 80 + rng.Intn(20)},
+			map[string]any{"name": word(rng), "env": []any{map[string]any{"name": "E", "value": word(rng)}}},
+		},
 	}
 }
 
@@ -274,6 +280,9 @@ var constructs = []construct{
 	}},
 	{"set-values-trail", false, func(c string, n int) string {
 		return fmt.Sprintf("{{- $_ := set .Values \"trail\" (printf \"%%s>%%s\" (.Values.trail | default \"\") (base .Template.Name)) }}\n  k%dtrail: {{ .Values.trail | quote }}\n", n)
+	}},
+	{"set-list-element-in-place", false, func(c string, n int) string {
+		return fmt.Sprintf("{{- range .Values.containers }}{{ $_ := set . \"name\" (printf \"%%s-%%s\" $.Release.Name .name) }}{{ range .env }}{{ $_ := set . \"value\" (printf \"%%s!\" .value) }}{{ end }}{{ end }}\n  k%dc: {{ toJson .Values.containers | quote }}\n", n)
 	}},
 	{"range-nested-maps", true, func(c string, n int) string {
 		return fmt.Sprintf("{{- range $k, $v := .Values.config }}\n  n%d-{{ $k }}: {{ kindOf $v | quote }}\n{{- end }}\n", n)
